@@ -1,7 +1,6 @@
 package lens
 
 import (
-	"time"
 	"context"
 	"fmt"
 	"math/rand/v2"
@@ -10,6 +9,7 @@ import (
 	"sort"
 	"strconv"
 	"strings"
+	"time"
 
 	"github.com/notaryproject/notation-go/dir"
 	"github.com/notaryproject/notation-go/plugin"
@@ -33,9 +33,9 @@ func (c20) Components() map[string]string {
 	return map[string]string{
 		"plugin.CLIManager.Install/Uninstall/Get/List, parsePluginFromDir, CLIPlugin.GetMetadata": "real",
 		"internal/file.CopyToDir/CopyDirToDir, internal/semver":                                   "real",
-		"os, path/filepath":  "simos/simfilepath shims over tmpfs",
-		"os/exec":            "simexec model; the installed file's content decides what the installed plugin answers",
-		"reference model":    "map name -> (file set with content, version); independent semver precedence",
+		"os, path/filepath": "simos/simfilepath shims over tmpfs",
+		"os/exec":           "simexec model; the installed file's content decides what the installed plugin answers",
+		"reference model":   "map name -> (file set with content, version); independent semver precedence",
 	}
 }
 
